@@ -7,8 +7,10 @@ import (
 	"io"
 	"net/mail"
 	"strings"
+	"text/template"
 
 	"github.com/Masterminds/semver/v3"
+	"github.com/goreleaser/chglog"
 	"gopkg.in/yaml.v3"
 
 	zz "github.com/goreleaser/nfpm/v2/internal/zzverif"
@@ -74,4 +76,34 @@ func SemverNewVersion(s string) (*semver.Version, error) {
 	}
 	zz.Unsupported("semver.NewVersion without a prepared result")
 	return nil, nil
+}
+
+// ---------------------------------------------------------------- goreleaser/chglog (yaml + sprig templates)
+//
+// Contract stub: a changelog file that exists parses to one opaque entry and
+// formats to an opaque, non-empty text of fixed length (fresh symbolic bytes,
+// printable, no line feed inside). What the changelog says is outside the claim;
+// that its bytes are shipped and digested like any other member is inside.
+
+//verif:replace github.com/goreleaser/chglog.Parse
+func ChglogParse(file string) (chglog.ChangeLogEntries, error) {
+	if _, err := OsStat(file); err != nil {
+		return nil, err
+	}
+	return chglog.ChangeLogEntries{&chglog.ChangeLog{}}, nil
+}
+
+//verif:replace github.com/goreleaser/chglog.DebTemplate
+func ChglogDebTemplate() (*template.Template, error) { return nil, nil }
+
+//verif:replace github.com/goreleaser/chglog.LoadTemplateData
+func ChglogLoadTemplateData(data string) (*template.Template, error) { return nil, nil }
+
+//verif:replace github.com/goreleaser/chglog.FormatChangelog
+func ChglogFormatChangelog(l *chglog.PackageChangeLog, tpl *template.Template) (string, error) {
+	b := zz.FreshBytes("changelog", 5)
+	for i := range b {
+		b[i] = 'a' + b[i]%26
+	}
+	return string(b), nil
 }
